@@ -7,6 +7,7 @@ import (
 	"strings"
 
 	"github.com/protolambda/zrnt/eth2/beacon/common"
+	"github.com/protolambda/ztyp/view"
 
 	"verif/harness/absstate"
 	"verif/harness/beaconrec"
@@ -73,6 +74,9 @@ type chainCfg struct {
 	steps      []chain.StepPlan // explicit steps (corner scenarios); nil = RandomScenario
 	// prepare edits the freshly built genesis chain before the history starts
 	prepare func(c *chain.Chain) error
+	// tweak edits the preset (the trace-file group gets tag appended: one preset record per file)
+	tweak func(spec *common.Spec)
+	tag   string
 }
 
 func chainScenarios(tier string, seed int64) []scenario {
@@ -128,12 +132,31 @@ func chainScenarios(tier string, seed int64) []scenario {
 			}
 		}
 	}
+	// preset variants in which MAX_VALIDATORS_PER_WITHDRAWALS_SWEEP exceeds the registry size (the sweep is then
+	// bounded by len(validators) but the cursor still advances by the preset value, modulo the registry size),
+	// through capella and deneb, with full and non-full withdrawal lists
+	for i, f := range []chain.ForkSchedule{F(0, 0, 0, 3), F(0, 0, 1, 4), F(0, 0, 0, X), F(0, 0, 0, 0)} {
+		bound, preset, n := 24, chain.PresetS1, 16
+		if i%2 == 1 {
+			bound, preset, n = 11, chain.PresetS4, 8
+		}
+		b := bound
+		cfgs = append(cfgs, chainCfg{name: fmt.Sprintf("sweep-bound-%d", b), preset: preset, forks: f, validators: n, epochs: 8 + 4*(i%2), skipProb: 0.1,
+			tweak: func(spec *common.Spec) { spec.MAX_VALIDATORS_PER_WITHDRAWALS_SWEEP = view.Uint64View(b) }, tag: fmt.Sprintf("-sweep%d", b),
+			genesis: chain.GenesisOpts{Eth1Creds: []int{0, 2, 3, 5, 7}}})
+	}
 	// own corner: attester slashings over sets that mix slashable validators with an already slashed one, a not
 	// yet activated one (fresh deposit) and an exited + withdrawable one; valid by the specification (the
 	// non-slashable members are skipped)
 	for _, f := range []chain.ForkSchedule{chain.Phase0Only, F(0, 0, 0, 0), F(1, 2, 3, 4), F(0, 1, X, X)} {
 		cfgs = append(cfgs, chainCfg{name: "corner-mixed-attester-slashing", preset: chain.PresetS1, forks: f, validators: 16,
 			genesis: chain.GenesisOpts{PendingDeposits: []chain.DepositSpec{{Key: 16}}}, steps: mixedSlashingSteps()})
+	}
+	// own corner: several aggregates of ONE committee with overlapping attester sets, in the same and in later
+	// blocks: {0,1} then {0,2} (an already flagged attester precedes a new one), an exact duplicate, a strict superset
+	for _, f := range []chain.ForkSchedule{chain.Phase0Only, F(0, X, X, X), F(0, 0, X, X), F(0, 0, 0, X), F(0, 0, 0, 0), F(1, 2, 3, 4)} {
+		cfgs = append(cfgs, chainCfg{name: "corner-overlapping-aggregates", preset: chain.PresetS1, forks: f, validators: 32,
+			steps: overlappingAggregateSteps(24)})
 	}
 	// own corner: deposits whose signature BYTES have every shape (valid / wrong but decodable / all-zero / all-0xff /
 	// garbage / infinity), as top-ups (counted whatever the signature) and for new pubkeys (ignored unless valid;
@@ -160,7 +183,7 @@ func chainScenarios(tier string, seed int64) []scenario {
 		name := fmt.Sprintf("chain-%s-%s-%s-v%d", cfg.name, cfg.preset, schedName(cfg.forks), cfg.validators)
 		out = append(out, scenario{
 			name:  name,
-			group: cfg.preset + "-" + schedName(cfg.forks),
+			group: cfg.preset + cfg.tag + "-" + schedName(cfg.forks),
 			run: func(rec *beaconrec.Recorder) error {
 				return runChain(rec, cfg, name, rand.New(rand.NewSource(seed*7919+int64(i))))
 			},
@@ -171,6 +194,9 @@ func chainScenarios(tier string, seed int64) []scenario {
 
 func runChain(rec *beaconrec.Recorder, cfg chainCfg, name string, rng *rand.Rand) error {
 	spec := chain.NewSpec(cfg.preset, cfg.forks)
+	if cfg.tweak != nil {
+		cfg.tweak(spec)
+	}
 	g := cfg.genesis
 	g.Validators = cfg.validators
 	c, err := chain.NewGenesis(spec, g)
@@ -342,4 +368,38 @@ func depositSignatureShapes(c *chain.Chain) error {
 	ed := c.Deposits.Eth1Data(c.Deposits.Count())
 	ed.BlockHash = cur.BlockHash
 	return c.State.SetEth1Data(ed)
+}
+
+// overlappingAggregateSteps: nobody attests through the pool; every block carries hand-made aggregates of the
+// committees of the two previous slots (32 validators: 2 committees of 4 per slot).
+func overlappingAggregateSteps(n int) []chain.StepPlan {
+	var steps []chain.StepPlan
+	for sl := 1; sl <= n; sl++ {
+		st := chain.StepPlan{Slot: common.Slot(sl), Seed: int64(8500 + sl), NoAttest: true, HoldAttestations: true}
+		plan := &chain.BlockPlan{}
+		a := func(slot int, index int, pos ...int) {
+			if slot >= 1 || (slot == 0 && sl > 0) {
+				plan.Attestations = append(plan.Attestations, chain.AttPlan{Slot: common.Slot(slot), Index: common.CommitteeIndex(index), Positions: pos})
+			}
+		}
+		// previous slot, committee 0: two partially overlapping aggregates in the same block
+		a(sl-1, 0, 0, 1)
+		a(sl-1, 0, 0, 2)
+		// previous slot, committee 1: everybody
+		a(sl-1, 1, 0, 1, 2, 3)
+		if sl >= 2 {
+			// the slot before: committee 0 once more, alternating strict superset / exact duplicate / overlap {1,3}
+			switch sl % 3 {
+			case 0:
+				a(sl-2, 0, 0, 1, 2, 3)
+			case 1:
+				a(sl-2, 0, 0, 1)
+			default:
+				a(sl-2, 0, 1, 3)
+			}
+		}
+		st.Block = plan
+		steps = append(steps, st)
+	}
+	return steps
 }
